@@ -10,6 +10,11 @@ func avoidIgnoreWithGenerated(id string) func(env *kernel.Env, t *TableDef) map[
 		if hasGenerated(t) && env.Avoid(id) {
 			return map[string]bool{"insert-ignore": true}
 		}
+		// the same ordering problem lets an adjusted value slip past a CHECK
+		// (known finding check-before-ignore-adjustment)
+		if len(t.Checks) > 0 && env.Avoid("check-before-ignore-adjustment") {
+			return map[string]bool{"insert-ignore": true}
+		}
 		return nil
 	}
 }
